@@ -53,3 +53,22 @@ pub proof fn lemma_iter_step<T>(q: Seq<T>, idx: int)
         }
     }
 }
+
+// the same bookkeeping step for a sequence that may repeat elements (e.g. the values of a map)
+pub proof fn lemma_in_rest_step<T>(q: Seq<T>, idx: int)
+    requires 0 <= idx < q.len(),
+    ensures
+        forall|x: T| #![trigger in_rest(q, idx, x)] #![trigger in_rest(q, idx + 1, x)] in_rest(q, idx, x) <==> (x == q[idx] || in_rest(q, idx + 1, x)),
+{
+    assert forall|x: T| #![trigger in_rest(q, idx, x)] #![trigger in_rest(q, idx + 1, x)] in_rest(q, idx, x) <==> (x == q[idx] || in_rest(q, idx + 1, x)) by {
+        if exists|i: int| idx <= i < q.len() && q[i] == x {
+            let i = choose|i: int| idx <= i < q.len() && q[i] == x;
+            if i != idx { assert(idx + 1 <= i < q.len() && q[i] == x); }
+        }
+        if x == q[idx] { assert(idx <= idx < q.len() && q[idx] == x); }
+        if exists|i: int| idx + 1 <= i < q.len() && q[i] == x {
+            let i = choose|i: int| idx + 1 <= i < q.len() && q[i] == x;
+            assert(idx <= i < q.len() && q[i] == x);
+        }
+    }
+}
